@@ -1591,6 +1591,13 @@ fire("c06-number-unary-real-fast-path", "C06", TERMS,
      "    def eager_unary(self, op):\n        dtype = find_domain(op, self.output).dtype\n        return Number(op(self.data), dtype)\n",
      "    def eager_unary(self, op):\n        if self.dtype == \"real\":\n            return Number(op(self.data))\n        dtype = find_domain(op, self.output).dtype\n        return Number(op(self.data), dtype)\n", "R06.3", "Number.eager_unary")
 
+fire("c06-new-shape-changing-op-without-typing-rule", "C06", ARRAY,
+     "@UnaryOp.make\ndef isnan(x):\n    return np.isnan(x)\n", "@UnaryOp.make\ndef isnan(x):\n    return np.isnan(x)\n\n\n@UnaryOp.make\ndef squeeze_first(x):\n    return np.squeeze(x, 0)\n", "R06.20", "squeeze_first")
+silent("c06-s-new-elementwise-op-without-typing-rule", "C06", ARRAY,
+       "@UnaryOp.make\ndef isnan(x):\n    return np.isnan(x)\n", "@UnaryOp.make\ndef isnan(x):\n    return np.isnan(x)\n\n\n@UnaryOp.make\ndef signum(x):\n    return np.sign(x)\n")
+fire("c06-reshape-typing-rule-removed", "C06", "funsor/domains.py",
+     "@find_domain.register(ops.ReshapeOp)\n", "", "R06.20", "reshape")
+
 # ===== derived variants: must stay at the END of this file (they enumerate every rename() variant above) =====
 # `if c: A else: B` -> `if not c: B else: A` in the anchor functions (behaviour-preserving)
 def invert(prop, file, qual):
